@@ -484,7 +484,7 @@ def check_unit(case, rec):
 @st.composite
 def dispatch_cases(draw, tier):
     return dict(ge=draw(exps()), fe=draw(exps()), ndims=draw(st.sampled_from([1, 2, 2])), op=draw(st.sampled_from(['grad', 'div', 'laplace', 'jacobian', 'integral', 'curvature', 'normal', 'derivative', 'field', 'surfgrad', 'curl', 'jump', 'opposite', 'linearize', 'replace', 'factor',
-                                         'scatter', 'kronecker', 'normalized', 'bind', 'evaluate', 'arguments_for', 'locate', 'locate-wrong-dimension', 'locate-tol-dimension', 'shape-queries', 'surfgrad'])),
+                                         'scatter', 'kronecker', 'normalized', 'bind', 'evaluate', 'arguments_for', 'locate', 'locate-wrong-dimension', 'locate-tol-dimension', 'locate-maxdist-dimension', 'locate-maxdist-plain', 'shape-queries', 'surfgrad'])),
                 scale=draw(st.sampled_from([1.0, 2.0, 0.5])))
 
 
@@ -577,10 +577,10 @@ def check_dispatch(case, rec):
             if set(a) != {'u'} or isinstance(a['u'], S.Quantity): raise Violation('dispatch-value', f'arguments_for: {a}', where='arguments_for')
             rec.label('op:arguments_for'); rec.nontrivial = True
             return
-        elif op in ('locate', 'locate-wrong-dimension', 'locate-tol-dimension'):
+        elif op in ('locate', 'locate-wrong-dimension', 'locate-tol-dimension', 'locate-maxdist-dimension', 'locate-maxdist-plain'):
             pts = numpy.full((2, nd), .5) + numpy.arange(2)[:, None] * .25
             if op == 'locate':
-                s1 = topo.locate(X, dim_of(ge).wrap(pts * case['scale']), tol=dim_of(ge).wrap(1e-10))
+                s1 = topo.locate(X, dim_of(ge).wrap(pts * case['scale']), tol=dim_of(ge).wrap(1e-10), maxdist=dim_of(ge).wrap(10.))
                 s2 = topo.locate(xs, pts * case['scale'], tol=1e-10)
                 a, b = s1.eval(x), s2.eval(x)
                 if not numpy.allclose(a, b, atol=1e-12) or not numpy.allclose(a, pts, atol=1e-9): raise Violation('dispatch-value', f'locate: {a} vs {b} vs {pts}', where='locate')
@@ -590,6 +590,8 @@ def check_dispatch(case, rec):
             if not any(other) or other == ge: raise Discard('no-other-dimension')
             try:
                 if op == 'locate-wrong-dimension': topo.locate(X, dim_of(other).wrap(pts), tol=dim_of(ge).wrap(1e-10))
+                elif op == 'locate-maxdist-dimension': topo.locate(X, dim_of(ge).wrap(pts * case['scale']), tol=dim_of(ge).wrap(1e-10), maxdist=dim_of(other).wrap(10.))
+                elif op == 'locate-maxdist-plain': topo.locate(X, dim_of(ge).wrap(pts * case['scale']), tol=dim_of(ge).wrap(1e-10), maxdist=10.)
                 else: topo.locate(X, dim_of(ge).wrap(pts * case['scale']), tol=dim_of(other).wrap(1e-10))
             except S.DimensionError:
                 rec.label('op:' + op); rec.nontrivial = True
